@@ -33,6 +33,8 @@ type outOfSubset struct{ msg string }
 func (o outOfSubset) Error() string { return o.msg }
 
 type fnEnc struct {
+	stable     []*ssa.Alloc
+	stableDone bool
 	eng  *Engine
 	fn   *ssa.Function
 	name string
